@@ -7,10 +7,10 @@ CONSTANTS
   Kv <- None
   Changes = {c1, c2}
   MaxPend = 2
-  NoSpace <- None
-  Dev <- DevObserver
-  Budget <- Bq
-SYMMETRY Sym
+  NoSpace = {p2}
+  Dev <- None
+  Budget <- Bpush
+SYMMETRY SymTC
 INVARIANT TypeOK
 INVARIANT IdxFollowsStore
 INVARIANT HashPersisted
